@@ -8,7 +8,7 @@
 char *xv_asprintf2(const char *fmt, const char *a);
 char *xv_asprintf3(const char *fmt, const char *a, const char *b);
 /* ghost state named by the loop contracts of loops/btls.loops (defined in env/ssl_env.h and contracts/btls.h) */
-extern size_t xv_slist_n; extern const char *xv_slist_name_k, *xv_x509_host_k; extern long xv_hk, xv_x509_nhosts, xv_x509_add_calls;
+extern size_t xv_slist_n; extern const char *xv_slist_name_k, *xv_x509_host_k; extern long xv_hk, xv_x509_nhosts, xv_x509_add_calls, xv_slist_destroy_calls, xv_dns_valid_calls; extern const struct slist *xv_slist_destroyed;
 #include "xcm_tp_btls.c"
 #include "env/base.h"
 #include "env/ssl_env.h"
